@@ -136,6 +136,7 @@ def accSet : BinF := fun _ x => x
 
 /-- `E.OpIncr(t, a, b, incr)` -/
 def eOpIncr (s : St) (a b incr : Win) (f : BinF) (fv : BinF := f) : Res St := do
+  if ((isSc a && !isSc b) || (isSc b && !isSc a)) && isSc incr then throwErr "Cannot increment on scalar increment"
   if isSc a && isSc b then
     let s ← kVV s a b fv
     if !isSc incr then eOp s incr a (fun x y => .app2 "add" x y)
@@ -147,6 +148,7 @@ def eOpIncr (s : St) (a b incr : Win) (f : BinF) (fv : BinF := f) : Res St := do
 /-- `E.OpIterIncr(t, a, b, incr, ait, bit, iit)`; `fIter` is what the scalar-scalar-nonscalar corner
     re-dispatches to (`e.<Op>Iter(t, incr, a, iit, ait)`) -/
 def eOpIterIncr (s : St) (a b incr : Win) (f : BinF) (ia ib ik : ItS) (fv : BinF := f) : Res St := do
+  if ((isSc a && !isSc b) || (isSc b && !isSc a)) && isSc incr then throwErr "Cannot increment on a scalar increment"
   if isSc a && isSc b then
     let s ← kVV s a b fv
     if !isSc incr then eOpIter s incr a f ik ia
